@@ -1,4 +1,5 @@
 import Qentem.Proofs.StrToNumPosIter
+import Mathlib.Tactic.Positivity
 /-! C09 helper lemma: `powerOfPositiveTen num x` is within one unit in the last place of the
 correctly rounded value of `num · 10^x`, for every 64-bit `num > 0` (overflow included: both sides
 are then capped at infinity). -/
@@ -67,8 +68,11 @@ theorem inv_to_close (b N j x : Nat) (hN : 0 < N) (h : PosInv b N j) (hj : j ≤
     calc N * 2 ^ x < (b * M + T * M) * 2 ^ x := Nat.mul_lt_mul_of_pos_right key hX
       _ = b * (M * 2 ^ x) + T * (M * 2 ^ x) := by ring
 
-theorem powerOfPositiveTen_close (num x : Nat) (hn0 : 0 < num) (hn : num < 2 ^ 64) (hx : x ≤ 2 ^ 20) :
-    ∃ p, powerOfPositiveTen num x = some p ∧ ulpDist p (nearestMag (num * 10 ^ x) 1) ≤ 1 := by
+/-- the result is the capped raw pattern of some `(b, s)` that is within one of the specification's
+raw pattern of `num·10^x` and not below its truncation -/
+theorem powerOfPositiveTen_raw (num x : Nat) (hn0 : 0 < num) (hn : num < 2 ^ 64) (hx : x ≤ 2 ^ 20) :
+    ∃ c, powerOfPositiveTen num x = some (cap c) ∧ specRaw (num * 10 ^ x) ≤ c + 1 ∧ c ≤ specRaw (num * 10 ^ x) + 1 ∧
+      floorRaw (num * 10 ^ x) ≤ c := by
   obtain ⟨p27, hp27e, hcases⟩ := posScale_closed num x hn
   have hp27 : p27 = 5 ^ 27 := by
     have := pow5_get 27 (by decide); rw [hp27e] at this; exact Option.some.inj this
@@ -102,10 +106,56 @@ theorem powerOfPositiveTen_close (num x : Nat) (hn0 : 0 < num) (hn : num < 2 ^ 6
   obtain ⟨b, s, hps, hb256, hsx, hfin⟩ := final
   have hNpos : 0 < num * 5 ^ x := Nat.mul_pos hn0 (Nat.pow_pos (by decide))
   obtain ⟨hb, k1, k2, k3⟩ := inv_to_close b (num * 5 ^ x) j x hNpos hfin hj20
-  refine ⟨posFinish b s, by simp [powerOfPositiveTen, hps], ?_⟩
-  rw [posFinish_eq b s hb hb256 (by omega), nearestMag_nat _ (by rw [hV]; exact Nat.mul_pos hNpos (Nat.pow_pos (by decide)))]
+  refine ⟨codeRaw b s, by simp [powerOfPositiveTen, hps, posFinish_eq b s hb hb256 (by omega)], ?_⟩
   rw [hV, hsx]
-  obtain ⟨c1, c2⟩ := raw_close b (x + 64 * j) (num * 5 ^ x * 2 ^ x) hb k1 (fun h => k2 h) (fun h => k3 h)
+  exact raw_close b (x + 64 * j) (num * 5 ^ x * 2 ^ x) hb k1 (fun h => k2 h) (fun h => k3 h)
+
+theorem powerOfPositiveTen_close (num x : Nat) (hn0 : 0 < num) (hn : num < 2 ^ 64) (hx : x ≤ 2 ^ 20) :
+    ∃ p, powerOfPositiveTen num x = some p ∧ ulpDist p (nearestMag (num * 10 ^ x) 1) ≤ 1 := by
+  obtain ⟨c, h1, c1, c2, _⟩ := powerOfPositiveTen_raw num x hn0 hn hx
+  refine ⟨cap c, h1, ?_⟩
+  rw [nearestMag_nat _ (Nat.mul_pos hn0 (Nat.pow_pos (by decide)))]
   exact cap_close _ _ c2 c1
+
+theorem floorRaw_ge_maxFinite (V : Nat) (hV : (2 ^ 53 - 1) * 2 ^ 971 ≤ V) : maxFiniteBits ≤ floorRaw V := by
+  have hV0 : V ≠ 0 := by
+    intro h; subst h
+    have : 0 < (2 ^ 53 - 1) * 2 ^ 971 := Nat.mul_pos (by norm_num) (Nat.pow_pos (by decide))
+    exact absurd hV (Nat.not_le.2 this)
+  obtain ⟨hlo, hhi⟩ := log2_bounds V hV0
+  have h1023 : 2 ^ 1023 ≤ V := by
+    have : (2 : Nat) ^ 1023 = 2 ^ 52 * 2 ^ 971 := by rw [← Nat.pow_add]
+    rw [this]; exact Nat.le_trans (Nat.mul_le_mul_right _ (by norm_num)) hV
+  have hL : 1023 ≤ Nat.log2 V := (Nat.le_log2 hV0).2 h1023
+  unfold floorRaw maxFiniteBits
+  simp only [show ¬ (Nat.log2 V ≤ 52) by omega, if_false]
+  rcases Nat.lt_or_ge (Nat.log2 V) 1024 with h | h
+  · have hLe : Nat.log2 V = 1023 := by omega
+    rw [hLe, show 1023 - 52 = 971 from rfl]
+    have hK : (0 : Nat) < 2 ^ 971 := by positivity
+    have := (Nat.le_div_iff_mul_le hK).2 hV
+    generalize V / 2 ^ 971 = w at *
+    omega
+  · have : 2 ^ 52 ≤ V / 2 ^ (Nat.log2 V - 52) := by
+      rw [Nat.le_div_iff_mul_le (Nat.pow_pos (by decide)), ← Nat.pow_add]
+      rw [show 52 + (Nat.log2 V - 52) = Nat.log2 V by omega]; exact hlo
+    have h2 : (1024 + 1022) * 2 ^ 52 ≤ (Nat.log2 V + 1022) * 2 ^ 52 := Nat.mul_le_mul_right _ (by omega)
+    omega
+
+/-- **Overflow is reported** by the positive-exponent scaling: a value above the largest finite
+double comes back as the largest finite double (only possible when that is within rounding reach)
+or as infinity — never as a smaller or wrapped finite pattern. -/
+theorem powerOfPositiveTen_overflow (num x : Nat) (hn0 : 0 < num) (hn : num < 2 ^ 64) (hx : x ≤ 2 ^ 20)
+    (hov : (2 ^ 53 - 1) * 2 ^ 971 ≤ num * 10 ^ x) :
+    ∃ p, powerOfPositiveTen num x = some p ∧ (p = maxFiniteBits ∨ p = infBits) := by
+  obtain ⟨c, h1, _, _, c3⟩ := powerOfPositiveTen_raw num x hn0 hn hx
+  refine ⟨cap c, h1, ?_⟩
+  have := floorRaw_ge_maxFinite _ hov
+  unfold cap
+  unfold maxFiniteBits at this ⊢
+  unfold infBits
+  split
+  · exact Or.inr rfl
+  · left; omega
 
 end Qentem.StrToNum
